@@ -28,6 +28,8 @@ def to_sparse(dense, pattern, fmt):
         return m.tocsr()
     if fmt == "csc":
         return m.tocsc()
+    if fmt in ("dia", "lil", "dok", "bsr"):
+        return m.asformat(fmt)
     raise ValueError(fmt)
 
 
